@@ -22,14 +22,18 @@ use vcore::{Cov, Ctx, Outcome, Violation};
 
 // root-cause classes (= classification keys). One key per analysed defect; the symptom (panic, error
 // text, differing column) goes into the description.
+#[allow(dead_code)]
 pub const K_ALLVALID_LIST: &str = "repdef/allvalid-list-starts-with-inner-special";
 pub const K_CURRENT_LEN: &str = "repdef/record-validity-current-len-ignores-specials";
 pub const K_COMPOSITE_COUNT: &str = "repdef/composite-allvalid-layer-counts-leaf-items";
+#[allow(dead_code)]
 pub const K_NODEF_TRUNCATE: &str = "repdef/composite-nodef-unraveler-truncates-to-shared-offsets";
+#[allow(dead_code)]
 pub const K_UNARY16: &str = "repdef/unary16-control-word-exhaustion";
 pub const K_FULLZIP_ZERO_DEF: &str = "fullzip/all-zero-def-levels-control-word-width";
 pub const K_FULLZIP_NULL_STRUCT_LIST: &str = "fullzip/null-struct-and-null-list-below-it";
-pub const K_ALLNULL_NESTED: &str = "all-null-page/nested-list-with-null-inner-list";
+pub const K_ALLNULL_NESTED: &str = "all-null-page/nested-lists-without-any-leaf-value";
+pub const K_FULLZIP_GARBAGE_PAGE: &str = "fullzip/page-with-list-specials-and-bitmap-without-nulls";
 
 #[derive(Clone, Copy, Debug, PartialEq, Eq, Hash)]
 pub enum Layer {
@@ -529,33 +533,29 @@ fn cause_composite_count(stack: &[Layer], a: &[V], b: &[V], cfg: Cfg) -> bool {
 }
 
 
+/// Defects of one serialisation unit. The shapes of the defects fixed in /repo (426ec68 all-valid list
+/// starting with an inner special, 345e43b current_len without specials, 811f12d stale rep levels in the
+/// second unraveler, a1b70fd 16-bit unary control word) are no longer classified: a recurrence must show
+/// up as a new violation. The predicates are kept (`cause_*`) as documentation of those shapes.
 fn unit_cause(stack: &[Layer], rows: &[V], cfg: Cfg) -> Option<&'static str> {
+    let _ = (cause_empty_leaf_bitmap(stack, rows, cfg.explicit), cause_validity_after_specials(stack, rows, cfg), cause_allvalid_list(stack, rows, cfg.explicit));
     if rows.is_empty() {
         Some("zero-rows")
-    } else if cause_empty_leaf_bitmap(stack, rows, cfg.explicit) {
-        // same root cause as the next one: do_record_validity leaves the special entries out of current_len
-        Some(K_CURRENT_LEN)
-    } else if cause_validity_after_specials(stack, rows, cfg) {
-        Some(K_CURRENT_LEN)
-    } else if cause_allvalid_list(stack, rows, cfg.explicit) {
-        Some(K_ALLVALID_LIST)
     } else {
         None
     }
 }
 
 fn halves_cause(stack: &[Layer], a: &[V], b: &[V], cfg: Cfg) -> Option<&'static str> {
+    let _ = cause_nodef_truncate(stack, b, cfg);
     unit_cause(stack, a, cfg).or_else(|| unit_cause(stack, b, cfg)).or_else(|| {
         if cause_composite_count(stack, a, b, cfg) {
             Some(K_COMPOSITE_COUNT)
-        } else if cause_nodef_truncate(stack, b, cfg) {
-            Some(K_NODEF_TRUNCATE)
         } else {
             None
         }
     })
 }
-
 
 /// how a leaf column of a file was written (for the file-only defect shapes)
 #[derive(Clone, Copy, Debug)]
@@ -627,44 +627,34 @@ fn cause_fullzip_null_struct_list(stack: &[Layer], rows: &[V], sh: FileShape) ->
     ns && nl
 }
 
-/// a page without a single leaf value (all-null layout) of a column with nested lists in which some
-/// inner list is NULL
+/// a column with nested lists (>= 2 list layers on the leaf's path) none of whose pages holds a valid
+/// leaf value (every page uses the all-null layout, which keeps only rep/def levels)
 fn cause_allnull_nested(stack: &[Layer], rows: &[V]) -> bool {
-    fn inner_null(v: &V, depth: usize, stack: &[Layer], lists_above: usize) -> bool {
-        match v {
-            V::Null | V::NullG => depth < stack.len() && stack[depth] == Layer::List && lists_above >= 1,
-            V::Leaf => false,
-            V::List(xs) => xs.iter().any(|x| inner_null(x, depth + 1, stack, lists_above + 1)),
-            V::Struct(c) => inner_null(c, depth + 1, stack, lists_above),
-            V::Fsl(_) => false,
-        }
-    }
-    stack.iter().filter(|l| **l == Layer::List).count() >= 2
-        && !rows.is_empty()
-        && flatten(stack, rows)[stack.len()].validity.iter().all(|v| !*v)
-        && rows.iter().any(|r| inner_null(r, 0, stack, 0))
+    stack.iter().filter(|l| **l == Layer::List).count() >= 2 && !rows.is_empty() && flatten(stack, rows)[stack.len()].validity.iter().all(|v| !*v)
 }
 
 /// classification of a file-level failure by the shape of one leaf column
 pub fn file_cause(stack: &[Layer], rows: &[V], sh: FileShape) -> Option<&'static str> {
     let plain = Cfg { explicit: false, large: false, base: false, unmasked: false };
     let paged = sh.pages && sh.split > 0 && sh.split < rows.len();
-    let rep = if paged {
-        // a sliced batch keeps the (sliced) validity bitmap of its leaf array: a page without any leaf
-        // slot whose leaf array has NULLs elsewhere hands an empty bitmap to the builder
-        let whole = flatten(stack, rows);
-        let leaf_has_nulls = whole[stack.len()].validity.iter().any(|v| !*v);
-        let mut r = None;
-        for half in [&rows[..sh.split], &rows[sh.split..]] {
-            if leaf_has_nulls && flatten(stack, half)[stack.len()].validity.is_empty() {
-                r = Some(K_CURRENT_LEN);
-            }
-        }
-        r.or_else(|| halves_cause(stack, &rows[..sh.split], &rows[sh.split..], plain))
-    } else {
-        unit_cause(stack, rows, plain)
-    };
+    let rep = if paged { halves_cause(stack, &rows[..sh.split], &rows[sh.split..], plain) } else { unit_cause(stack, rows, plain) };
     rep.filter(|c| *c != "zero-rows").or_else(|| {
+        let halves: Vec<&[V]> = if paged { vec![&rows[..sh.split], &rows[sh.split..]] } else { vec![rows] };
+        // unanalysed class: full-zip, two pages cut from one batch, a page that carries a validity bitmap
+        // without NULLs at some struct / leaf layer (the array has NULLs there in the other page) and also
+        // holds NULL / empty lists (so its definition levels are not all zero, which is the class below)
+        let whole = flatten(stack, rows);
+        let bitmap_without_nulls = |h: &[V]| {
+            let fh = flatten(stack, h);
+            (0..=stack.len()).any(|i| (i == stack.len() || stack[i] != Layer::List) && whole[i].validity.iter().any(|v| !*v) && fh[i].validity.iter().all(|v| *v))
+        };
+        let has_list_special = |h: &[V]| {
+            let fh = flatten(stack, h);
+            (0..stack.len()).any(|i| stack[i] == Layer::List && fh[i].norm_len.iter().any(|l| *l == 0))
+        };
+        if sh.fullzip && paged && halves.iter().any(|h| !h.is_empty() && has_list_special(h) && bitmap_without_nulls(h)) {
+            return Some(K_FULLZIP_GARBAGE_PAGE);
+        }
         if cause_fullzip_zero_def(stack, rows, sh) {
             Some(K_FULLZIP_ZERO_DEF)
         } else if cause_fullzip_null_struct_list(stack, rows, sh) {
@@ -968,7 +958,7 @@ fn control_words(cov: &mut Cov, viol: &mut Vec<Violation>) {
                     Ok(Ok(())) => cov.outcome("ctrl/ok"),
                     Ok(Err((k, d))) => {
                         cov.outcome("ctrl/fail");
-                        let key = if k == "exhausted-panic" && shape.ends_with("w16") { K_UNARY16.to_string() } else { format!("ctrl/{shape}/{k}") };
+                        let key = format!("ctrl/{shape}/{k}");
                         viol.push(Violation::new("control-words", &key, format!("{case}: {d}"), case));
                     }
                     Err(p) => {
